@@ -9,8 +9,11 @@ import (
 	"sort"
 	"strings"
 
+	"os"
+	"path/filepath"
 	shimnet "sonicverif/shim/net"
 	"sonicverif/sim"
+	"syscall"
 )
 
 // Failure describes one oracle violation. Sig identifies the violation class
@@ -120,6 +123,37 @@ type Outcome struct {
 }
 
 // RunOne executes one scenario run. variant<0: random run.
+// WaitHook is called after a run had to wait for other worker processes (not
+// for anything it simulates): the driver restarts its hang watchdog's clock.
+var WaitHook func()
+
+// Exclusive serialises, across the worker processes of one check, a step in
+// which a defective sonic may allocate gigabytes (a dropped length limit):
+// sixteen workers doing that side by side would make every run crawl. On
+// correct code the lock is held for microseconds. It does not influence what
+// a run does, only when.
+func Exclusive(name string) (unlock func()) {
+	exe, err := os.Executable()
+	if err != nil {
+		return func() {}
+	}
+	f, err := os.OpenFile(filepath.Join(filepath.Dir(exe), name+".lock"), os.O_CREATE|os.O_RDWR, 0o644)
+	if err != nil {
+		return func() {}
+	}
+	if err := syscall.Flock(int(f.Fd()), syscall.LOCK_EX); err != nil {
+		f.Close()
+		return func() {}
+	}
+	if WaitHook != nil {
+		WaitHook()
+	}
+	return func() {
+		syscall.Flock(int(f.Fd()), syscall.LOCK_UN)
+		f.Close()
+	}
+}
+
 // Deep scales an upper bound of a run (steps, objects, messages): the thorough
 // tier explores histories three times as long as the quick tier's.
 func (c *Ctx) Deep(hi int) int {
